@@ -80,6 +80,7 @@ type task struct {
 	opSteps   int64
 	opLimit   int64
 	blockedAt int64 // value of syncEpoch when the task last found its primitive unavailable
+	wakeAt    int64 // > 0 while blocked: asleep until this simulated time (only time makes it eligible)
 	prio      int64 // PCT
 	rdv       int32 // woken for a rendezvous on an unbuffered channel (runs one statement without the token)
 	selCase   int32 // ... out of Select: the case it was matched on
@@ -179,6 +180,11 @@ type Config struct {
 	// DefaultOpLimit is the step budget of a task that never calls BeginOp
 	// (0: unlimited)
 	DefaultOpLimit int64
+	// simulated clock (clock.go): whether the code under test uses the clock at
+	// all, simulated nanoseconds per step, injected jumps (step, nanoseconds)
+	Clock      bool
+	ClockTick  int64
+	ClockJumps [][2]int64
 }
 
 //go:norace
@@ -266,11 +272,18 @@ func Init(c Config) {
 		mainR, mainW = p[0], p[1]
 	}
 	for i := range tasks {
+		if i == spawnerID {
+			continue
+		}
 		if tasks[i].rfd != 0 {
 			syscall.Close(tasks[i].rfd)
 			syscall.Close(tasks[i].wfd)
 		}
 		tasks[i] = task{}
+	}
+	resetClock(c.ClockTick, c.ClockJumps)
+	if c.Clock {
+		startSpawner()
 	}
 }
 
@@ -308,7 +321,7 @@ func Spawn(f func()) int {
 //go:norace
 func allocTask() int {
 	id := nTasks
-	if id >= MaxTasks {
+	if id >= MaxTasks-1 { // the last slot belongs to the timer spawner
 		return -1
 	}
 	nTasks++
@@ -458,6 +471,9 @@ func eligible(i int) bool {
 	if halting && st == stBlocked {
 		return true
 	}
+	if st == stBlocked && tasks[i].wakeAt > 0 {
+		return NowNS() >= tasks[i].wakeAt // asleep: only time wakes it
+	}
 	return st == stRunnable || (st == stBlocked && tasks[i].blockedAt != syncEpoch)
 }
 
@@ -468,6 +484,9 @@ func eligible(i int) bool {
 func decide(me, kind, site int) int {
 	var cand [MaxTasks]int
 	n := 0
+	advanced := false
+rebuild:
+	n = 0
 	if kind == KPreempt || kind == KYield {
 		cand[0] = me
 		n = 1
@@ -477,6 +496,17 @@ func decide(me, kind, site int) int {
 			cand[n] = i
 			n++
 		}
+	}
+	if advanced && kind == KBlocked && me >= 0 && eligible(me) {
+		// the clock moved: what this task itself waits for may have happened
+		cand[n] = me
+		n++
+	}
+	if n == 0 && !Deadlock && !Draining && !halting && advanceClock(me, kind) {
+		// nobody could run and something was pending on the clock: simulated
+		// time jumped to it (discrete-event step)
+		advanced = true
+		goto rebuild
 	}
 	if n == 0 {
 		// nobody can run. Tasks that are blocked with nothing left to wake them
@@ -720,6 +750,12 @@ func Y(site int) {
 		GCFired++
 		ForceGC()
 	}
+	if jumpNext < nJump && Steps >= jumpAt[jumpNext] {
+		clockFaults()
+	}
+	if Steps >= timerDueStep {
+		fireDue(me)
+	}
 	if !replay && NTapeOut < MaxTape {
 		if t.opSteps == t.opLimit>>1 && !fallback && nTasks > 1 {
 			// an operation that has used half its budget without finishing may
@@ -772,6 +808,7 @@ func Blocked() {
 		panic(HaltAbort{})
 	}
 	if Deadlock || Draining {
+		tasks[cur].wakeAt = 0
 		panic(DeadlockAbort{})
 	}
 	me := cur
@@ -783,9 +820,11 @@ func Blocked() {
 	if Deadlock || Draining {
 		// nothing can ever release what this task waits for
 		t.state = stRunnable
+		t.wakeAt = 0
 		panic(DeadlockAbort{})
 	}
 	handTo(me, next, -2, KBlocked)
+	t.wakeAt = 0
 	if halting {
 		t.state = stRunnable
 		panic(HaltAbort{})
